@@ -55,6 +55,83 @@ struct ThreadState {
     cur_mark: Cell<Option<usize>>,
     requests: Cell<u64>,
     in_teardown: Cell<bool>,
+    /// Reference tally of every request this thread made (C10 cross-check on
+    /// real allocator traffic), updated where `AllocProfiler` tallies: before
+    /// the request is forwarded, whatever its result.
+    ref_t: Cell<RefT>,
+}
+
+#[derive(Clone, Copy, PartialEq, Eq, Debug)]
+struct RefT {
+    /// grow, shrink, alloc, dealloc: (count, bytes).
+    t: [(u64, u64); 4],
+    cur_count: i64,
+    max_count: i64,
+    cur_size: i64,
+    max_size: i64,
+    equal_reallocs: u64,
+}
+
+const REF_ZERO: RefT = RefT { t: [(0, 0); 4], cur_count: 0, max_count: 0, cur_size: 0, max_size: 0, equal_reallocs: 0 };
+
+impl RefT {
+    fn apply(&mut self, req: Req) {
+        let size = req.size as u64;
+        match req.method {
+            0 | 1 => {
+                self.t[2].0 += 1;
+                self.t[2].1 = self.t[2].1.wrapping_add(size);
+                self.cur_count += 1;
+                self.max_count = self.max_count.max(self.cur_count);
+                self.cur_size = self.cur_size.wrapping_add(size as i64);
+                self.max_size = self.max_size.max(self.cur_size);
+            }
+            3 => {
+                self.t[3].0 += 1;
+                self.t[3].1 = self.t[3].1.wrapping_add(size);
+                self.cur_count -= 1;
+                self.cur_size = self.cur_size.wrapping_sub(size as i64);
+            }
+            _ => {
+                let new = req.new_size as u64;
+                if new >= size {
+                    self.t[0].0 += 1;
+                    self.t[0].1 = self.t[0].1.wrapping_add(new - size);
+                    if new == size {
+                        self.equal_reallocs += 1;
+                    }
+                } else {
+                    self.t[1].0 += 1;
+                    self.t[1].1 = self.t[1].1.wrapping_add(size - new);
+                }
+                self.cur_size = self.cur_size.wrapping_add(new as i64).wrapping_sub(size as i64);
+                self.max_size = self.max_size.max(self.cur_size);
+            }
+        }
+    }
+
+    /// First difference to what divan tallied, if any.
+    fn diff(&self, g: &divan::verif::AllocPlain) -> Option<&'static str> {
+        if self.equal_reallocs == 0 {
+            if g.tallies != self.t {
+                return Some("operation counts / byte sums");
+            }
+        } else if g.tallies[0].0 + g.tallies[1].0 != self.t[0].0 + self.t[1].0
+            || g.tallies[0].1 != self.t[0].1
+            || g.tallies[1].1 != self.t[1].1
+            || g.tallies[2] != self.t[2]
+            || g.tallies[3] != self.t[3]
+        {
+            return Some("operation counts / byte sums");
+        }
+        if g.max_count != self.max_count || g.current_count != self.cur_count {
+            return Some("live / peak allocation count");
+        }
+        if g.max_size != self.max_size || g.current_size != self.cur_size {
+            return Some("live / peak bytes");
+        }
+        None
+    }
 }
 
 thread_local! {
@@ -70,6 +147,7 @@ thread_local! {
             cur_mark: Cell::new(None),
             requests: Cell::new(0),
             in_teardown: Cell::new(false),
+            ref_t: Cell::new(REF_ZERO),
         }
     };
 }
@@ -132,6 +210,9 @@ impl<A: GlobalAlloc> Outer<A> {
             t.depth.set(t.depth.get() + 1);
             t.cur.set(req);
             t.inner_calls.set(0);
+            let mut rt = t.ref_t.get();
+            rt.apply(req);
+            t.ref_t.set(rt);
             let n = t.requests.get();
             t.requests.set(n + 1);
             if n == 0 {
@@ -482,6 +563,39 @@ fn run_raw_thread(cells: Vec<Marked>) {
 }
 
 static MISMATCHES: std::sync::Mutex<Vec<String>> = std::sync::Mutex::new(Vec::new());
+static TALLY_MISMATCHES: std::sync::Mutex<Vec<String>> = std::sync::Mutex::new(Vec::new());
+static TALLY_CHECKPOINTS: AtomicU64 = AtomicU64::new(0);
+
+/// Clears the sandwich's reference tally and divan's tally of this thread
+/// together.
+fn tally_sync() {
+    // Reference first: clearing divan's tally reports a probe event to the
+    // simulator (hook H7), a scheduling point that may itself allocate —
+    // after divan's tally was cleared. Those requests belong to both sides.
+    T.with(|t| t.ref_t.set(REF_ZERO));
+    let _ = divan::verif::take_thread_tally();
+}
+
+/// Compares divan's tally of this thread with the reference tally of all
+/// requests (organic and marked) the thread made since the last sync.
+fn tally_checkpoint(what: &str) {
+    // Both reads first (neither allocates), then report.
+    let got = divan::verif::peek_thread_tally();
+    let want = T.with(|t| t.ref_t.get());
+    TALLY_CHECKPOINTS.fetch_add(1, Relaxed);
+    if let Some(g) = got {
+        if let Some(d) = want.diff(&g) {
+            let msg = format!("{what}: {d} differ: divan tallied {g:?}, the requests this thread made give {want:?}");
+            if let Ok(mut s) = TALLY_MISMATCHES.lock() {
+                if s.len() < 5 {
+                    s.push(msg);
+                }
+            }
+            // Re-sync so that one divergence is reported once.
+            tally_sync();
+        }
+    }
+}
 
 fn issue_logged(m: Marked, phase: &str) {
     // After the first finding nothing more is issued (a broken tally would
@@ -556,8 +670,10 @@ fn run_sim(scn: &SimScn, strategy: StrategySpec) -> dsim::RunResult {
         Box::new(move || {
             let script = move |idx: usize, g: std::sync::Arc<Vec<Marked>>| {
                 let mut rng = Rng::new(scn2.seed ^ (idx as u64) << 32);
+                tally_sync();
                 let first = g[rng.usize_below(g.len())];
                 issue_logged(first, "sim_first_action");
+                tally_checkpoint("after the first request");
                 probe::event(UserEv::Mark { tag: 9, a: idx as u64, b: 0 });
                 let mut keep: Vec<Vec<u64>> = Vec::new();
                 for k in 0..scn2.ops_per_thread {
@@ -580,6 +696,10 @@ fn run_sim(scn: &SimScn, strategy: StrategySpec) -> dsim::RunResult {
                             let m = g[rng.usize_below(g.len())];
                             issue_logged(m, "sim_steady");
                         }
+                    }
+                    tally_checkpoint("after a script step");
+                    if rng.chance(1, 8) {
+                        tally_sync();
                     }
                     probe::event(UserEv::Mark { tag: 10, a: idx as u64, b: k as u64 });
                 }
@@ -741,6 +861,64 @@ fn check(tier: common::Tier) -> i32 {
     0
 }
 
+/// C10 cross-check on real allocator traffic: seeded simulated runs whose
+/// threads mix organic allocations (Vec growth / shrink, String formatting,
+/// frees; forwarded to the system allocator) with marked requests, comparing
+/// divan's per-thread tally with the sandwich's reference tally of every
+/// request the thread made, after every script step.
+fn check_tally(tier: common::Tier) -> i32 {
+    let seed = common::verif_seed();
+    let start = Instant::now();
+    let runs: u64 = std::env::var("VERIF_RUNS").ok().and_then(|s| s.parse().ok()).unwrap_or(match tier {
+        common::Tier::Quick => 400,
+        common::Tier::Thorough => 8000,
+    });
+    let mut done = 0u64;
+    for i in 0..runs {
+        let run_seed = dsim::rng::mix(&[seed, 10, i]);
+        let mut rng = Rng::new(run_seed);
+        let scn = SimScn { seed: run_seed, threads: rng.range(1, 6) as usize, ops_per_thread: rng.range(0, 60) as usize };
+        let strategy = StrategySpec::swarm(&mut rng, scn.threads, (scn.threads * scn.ops_per_thread + 8) as u32);
+        let r = run_sim(&scn, strategy);
+        done += 1;
+        if let Some(f) = &r.failure {
+            eprintln!("HARNESS-ERROR property=C10 simulated run {i} failed: {f:?}");
+            return 2;
+        }
+        if !TALLY_MISMATCHES.lock().unwrap().is_empty() {
+            break;
+        }
+    }
+    let mism = TALLY_MISMATCHES.lock().unwrap().clone();
+    let organic: u64 = N_ORGANIC.iter().map(|a| a.load(Relaxed)).sum();
+    let marked: u64 = N_MARKED.iter().map(|a| a.load(Relaxed)).sum();
+    let summary = json!({
+        "simulated_runs": done,
+        "checkpoints": TALLY_CHECKPOINTS.load(Relaxed),
+        "organic_requests": organic,
+        "marked_requests": marked,
+        "mismatches": mism.len(),
+        "wall_s": start.elapsed().as_secs_f64(),
+        "what": "divan's per-thread tally vs a reference tally of every request the thread made (organic requests forwarded to the system allocator + marked requests), compared after every script step",
+    });
+    println!("TALLY-CROSS-CHECK {summary}");
+    if let Some(m) = mism.first() {
+        let rdir = verif_root().join("replays");
+        let _ = std::fs::create_dir_all(&rdir);
+        let path = rdir.join(format!("C10-{seed}-real-traffic.json"));
+        let body = json!({
+            "format": 1, "property": "C10", "engine": "dv-alloc",
+            "violation": { "class": "tally_mismatch_real_traffic", "message": m },
+            "verif_seed": seed, "mode": "check-tally",
+        });
+        std::fs::write(&path, serde_json::to_string_pretty(&body).unwrap()).unwrap();
+        println!("class=tally_mismatch_real_traffic message={m}");
+        println!("VIOLATION property=C10 replay={}", path.display());
+        return 1;
+    }
+    0
+}
+
 fn main() {
     // Panics are findings here, reported through the VIOLATION line.
     std::env::set_var("VERIF_QUIET_PANICS", "1");
@@ -756,6 +934,15 @@ fn main() {
                 .unwrap_or(common::Tier::Quick);
             check(tier)
         }
+        Some("check-tally") => {
+            let tier = args
+                .get(2)
+                .cloned()
+                .or_else(|| std::env::var("VERIF_TIER").ok())
+                .and_then(|s| common::Tier::parse(&s))
+                .unwrap_or(common::Tier::Quick);
+            check_tally(tier)
+        }
         Some("replay") => {
             // The checks are per-request and deterministic: replaying is
             // re-running the enumeration and the seeded runs of that seed.
@@ -769,7 +956,11 @@ fn main() {
             if let Some(s) = v["verif_seed"].as_u64() {
                 std::env::set_var("VERIF_SEED", s.to_string());
             }
-            check(common::Tier::Quick)
+            if v["mode"].as_str() == Some("check-tally") {
+                check_tally(common::Tier::Quick)
+            } else {
+                check(common::Tier::Quick)
+            }
         }
         _ => {
             eprintln!("usage: dv-alloc check [quick|thorough] | dv-alloc replay <file>");
